@@ -77,6 +77,18 @@ def _replay(ctx, wd, cases):
 
 
 def run(ctx):
+    _run_main(ctx)
+    if not ctx.replay_path:
+        # growth: the client-connection layer (spec/NetHandoff*.tla): recorded histories of the real Network + MainLoop with real
+        # TCP clients on loopback validated by TLC; S => P; notes only, no listed property
+        try:
+            from checks import grow_network
+            ctx.coverage["growth_network"] = grow_network.run_growth(ctx)
+        except Exception as e:   # a failing growth run is a machinery problem of the informing part only
+            ctx.notes.append("network growth failed: %s" % str(e)[:300])
+
+
+def _run_main(ctx):
     ctx.level = "exploration"
     wd = recs.workdir("C18")
     cases = os.path.join(wd, "cases.ndjson")
